@@ -614,6 +614,7 @@ func zsetClosure(arg json.RawMessage) interface{} {
 			for _, o := range muts {
 				path := append(append([]op(nil), nd.path...), o)
 				var ss *zset.SortedSet
+				var mdl *core.State
 				pan := ""
 				func() {
 					defer func() {
@@ -621,12 +622,29 @@ func zsetClosure(arg json.RawMessage) interface{} {
 							pan = fmt.Sprint(p)
 						}
 					}()
-					ss, _ = build(path)
+					ss, mdl = build(path)
 				}()
 				out.Transitions++
 				if pan != "" {
 					addV("panic", o.kind+":panic", fmt.Sprint(nd.path), fmt.Sprintf("%+v", o), pan)
 					continue
+				}
+				// every transition, also one that leads to a state seen before (a mutator that must
+				// change the contents and does not, or must not and does): contents vs the model
+				{
+					var items []string
+					for _, n := range ss.GetByRankRange(1, -1, false) {
+						items = append(items, fmtN(n))
+					}
+					got := "[" + strings.Join(items, ",") + "]"
+					want := "[]"
+					if len(mdl.ZSet["z"]) > 0 {
+						want = mdl.Clone().Eval(core.Call{F: "ZRangeByRank", B: "z", I: 1, J: -1}, core.Res{}).Val
+					}
+					if got != want {
+						addV("transition", o.kind+":wrong-items", fmt.Sprint(nd.path), fmt.Sprintf("%+v", o), "contents after the op "+got+", model "+want)
+						continue
+					}
 				}
 				k := canon(ss)
 				if seen[k] {
